@@ -2,7 +2,10 @@ package main
 
 // Lemmas: standalone obligations over spec-level parameters.
 
-import "fmt"
+import (
+	"fmt"
+	"strings"
+)
 
 func (P *Prog) lemmaObligations(prop string) []*Obligation {
 	var out []*Obligation
@@ -35,10 +38,7 @@ func (P *Prog) lemmaObligationsFor(prop string, used map[string]bool) []*Obligat
 				continue
 			}
 			for _, u := range lm.Uses {
-				e := u
-				if e.Op == "guarded" {
-					e = e.Args[1]
-				}
+				e := lemmaCallOf(u)
 				if !want[e.Name] {
 					want[e.Name] = true
 					changed = true
@@ -89,6 +89,19 @@ func (P *Prog) lemmaObls(lm *Lemma) (obls []*Obligation) {
 	env := &Env{st: st, vars: map[string]Val{}, pkg: lm.Pkg}
 	env.old = st.snapshot()
 	for _, p := range lm.Params {
+		if p.Type == "bytes" || p.Type == "floats" {
+			n := x.freshName("l_" + p.Name)
+			st.declare(n, "(Array Int Int)")
+			env.vars[p.Name] = Val{K: KArr, T: n}
+			continue
+		}
+		if strings.HasPrefix(p.Type, "row:") {
+			et := x.resolveType(lm.Pkg, p.Type[4:])
+			n := x.freshName("l_" + p.Name)
+			st.declare(n, "(Array Int "+P.ss.sortOf(et)+")")
+			env.vars[p.Name] = Val{K: KArr, T: n, Typ: et}
+			continue
+		}
 		t := x.resolveType(lm.Pkg, p.Type)
 		if t == nil {
 			n := x.freshName("l_" + p.Name)
@@ -122,6 +135,10 @@ func (x *Exec) useLemma(st *State, env *Env, u *Expr, props []string) {
 	if u.Op == "assume" {
 		st.assume(x.evalSpec(u.Args[0], env).T)
 		x.usedExt["explicit assumption: "+u.Src] = true
+		return
+	}
+	if u.Op == "universal" {
+		x.useLemmaUniversal(st, env, u, props)
 		return
 	}
 	guard := "true"
@@ -178,10 +195,7 @@ func (sp *Specs) lemmaCycle() string {
 		lm := sp.Lemmas[n]
 		if lm != nil {
 			for _, u := range lm.Uses {
-				e := u
-				if e.Op == "guarded" {
-					e = e.Args[1]
-				}
+				e := lemmaCallOf(u)
 				if e.Op != "call" || e.Name == n {
 					continue
 				}
@@ -199,4 +213,64 @@ func (sp *Specs) lemmaCycle() string {
 		}
 	}
 	return ""
+}
+
+// useLemmaUniversal assumes  forall vars. (guard && requires) ==> ensures  for a lemma instance whose
+// arguments mention the quantified variables. Sound because a lemma is proved for all parameter values.
+func (x *Exec) useLemmaUniversal(st *State, env *Env, u *Expr, props []string) {
+	inner := u.Args[0]
+	n := env.child()
+	n.bound = map[string]bool{}
+	for k := range env.bound {
+		n.bound[k] = true
+	}
+	var bnames []string
+	for _, v := range u.Vars {
+		nm := x.freshName("q_" + v)
+		n.bound[v] = true
+		n.vars[v] = specInt(nm)
+		bnames = append(bnames, nm)
+	}
+	guard := "true"
+	if inner.Op == "guarded" {
+		guard = x.evalSpec(inner.Args[0], n).T
+		inner = inner.Args[1]
+	}
+	if inner.Op != "call" {
+		bail("use expects lemma(args)")
+	}
+	lm := x.P.specs.Lemmas[inner.Name]
+	if lm == nil {
+		bail("use of unknown lemma %s", inner.Name)
+	}
+	if x.curLemma == lm {
+		bail("lemma %s: universal self-use is not allowed", lm.Name)
+	}
+	if len(inner.Args) != len(lm.Params) {
+		bail("lemma %s: wrong number of arguments", inner.Name)
+	}
+	le := &Env{st: st, vars: map[string]Val{}, pkg: lm.Pkg, old: env.old, useOld: env.useOld, bound: n.bound}
+	for i, p := range lm.Params {
+		le.vars[p.Name] = x.evalSpec(inner.Args[i], n)
+	}
+	var pre, post []string
+	pre = append(pre, guard)
+	for _, rq := range lm.Requires {
+		pre = append(pre, x.evalSpec(rq.E, le).T)
+	}
+	for _, en := range lm.Ensures {
+		post = append(post, x.evalSpec(en.E, le).T)
+	}
+	st.assume(normalizeForall("forall", bnames, implies(and(pre...), and(post...))))
+	x.usedLemmas = append(x.usedLemmas, inner.Name)
+}
+
+func lemmaCallOf(u *Expr) *Expr {
+	if u.Op == "universal" {
+		u = u.Args[0]
+	}
+	if u.Op == "guarded" {
+		u = u.Args[1]
+	}
+	return u
 }
